@@ -222,10 +222,9 @@ def _connect(c, loop, g, wr, tap, mode, direct, indirect, addr, typ, decoy, canc
     world.start()
     net = world.net
     net._ticket_generator = ticket_generator(initial=pos)      # the real generator, at an arbitrary position
-    S = {'t_ctp': None, 'gpa': 0, 'ctp': [], 'cc_sent': [], 'direct_attempts': []}
+    S = {'t_ctp': None, 'gpa': 0, 'ctp': [], 'cc_sent': []}
 
     def attempt_script(a):
-        S['direct_attempts'].append(a)
         delay = d_delay
         if delay is None:       # 'tie'
             delay = I_FAST - (GPA_REPLY if addr == 'server' else 0.0)
@@ -283,11 +282,19 @@ def _connect(c, loop, g, wr, tap, mode, direct, indirect, addr, typ, decoy, canc
     task = loop.spawn(coro, name='request')
     c.reach('request_started')
 
-    k = (k_lo + c.choose(k_hi - k_lo, 'cancel_point')) if cancel else None
-    st = {'steps': 0, 'idles': 0, 'cancelled_at': None, 'phase': None, 'observed': False, 'result': None}
+    st = {'steps': 0, 'idles': 0, 'cancelled_at': None, 'phase': None, 'observed': False, 'result': None, 'passed': False}
+
+    def cancel_here(counter):
+        """the cancellation point is a discriminant: one fork per loop step (or idle instant) inside the job's window"""
+        if st['cancelled_at'] is not None or counter < k_lo:
+            return False
+        if counter >= k_hi:
+            st['passed'] = True
+            return False
+        return c.choose(2, 'cancel_here') == 1
 
     def phase():
-        a = S['direct_attempts']
+        a = wr.attempts[1:]
         if S['t_ctp'] is None and not S['ctp'] and mode == 'fallback':
             i_ph = 'not_started'
         elif not S['ctp']:
@@ -397,36 +404,53 @@ def _connect(c, loop, g, wr, tap, mode, direct, indirect, addr, typ, decoy, canc
             c.check(z_iff(bool(returned.obfuscated), z_and(typ == 'P', came_obf)), 'returned_connection_obfuscation', sig=sig + [typ])
         # ---- clause 2: nothing but the returned connection remains ------------------------------------------------
         ok, inf = others_closed(returned)
-        c.check(ok, 'only_returned_connection_remains', sig=csig, info=inf)
-        c.check(waiters() == (0, 0), 'no_waiter_left', sig=csig, info={'ticket_waiters': waiters()[0], 'response_waiters': waiters()[1]})
-        c.check(not running(returned), 'no_attempt_left_running', sig=csig, info=running(returned))
+        r1 = c.check(ok, 'only_returned_connection_remains', sig=csig, info=inf)
+        r2 = c.check(waiters() == (0, 0), 'no_waiter_left', sig=csig, info={'ticket_waiters': waiters()[0], 'response_waiters': waiters()[1]})
+        r3 = c.check(not running(returned), 'no_attempt_left_running', sig=csig, info=running(returned))
+        return r1 and r2 and r3
 
     # ---- drive ------------------------------------------------------------------------------------------------------
+    def leftover():
+        returned = st['result'][0] if st['result'] else None
+        ok, inf = others_closed(returned if returned in net.peer_connections else None)
+        if not ok or waiters() != (0, 0) or running(returned):
+            return {**inf, 'waiters': waiters(), 'running': running(returned), 't': loop.time()}
+        return None
+
+    def all_fired():
+        return S['t_ctp'] is None or all(ev.fired_at is not None for ev in events)
+
     while True:
-        if cancel == 'step' and st['cancelled_at'] is None and st['steps'] == k:
-            if not inject():
-                c.reach('cancel_point_beyond_end')
-                return
+        if cancel == 'step' and not task.done() and cancel_here(st['steps']):
+            inject()
+        if st['passed']:
+            c.reach('cancel_window_passed')
+            return
         if loop.step():
             st['steps'] += 1
             continue
         # nothing more is ready at this instant
-        if cancel == 'idle' and st['cancelled_at'] is None and st['idles'] == k:
+        if cancel == 'idle' and not task.done() and cancel_here(st['idles']):
             st['idles'] += 1
-            if not inject():
-                c.reach('cancel_point_beyond_end')
-                return
+            inject()
             continue
+        if st['passed']:
+            c.reach('cancel_window_passed')
+            return
         st['idles'] += 1
         if task.done() and not st['observed']:
             if cancel and st['cancelled_at'] is None:
                 c.reach('cancel_point_beyond_end')
                 return
-            observe_return()
+            st['clean_at_return'] = observe_return()
         elif st['cancelled_at'] is not None and not st['observed']:
             c.check(False, 'cancelled_request_ends_cancelled', sig=[mode, 'cancel'] + st['phase'],
                     info='request still pending when the loop went idle after the cancellation')
-            st['observed'] = True
+            st['observed'], st['clean_at_return'] = True, False
+        elif st['observed'] and st.get('late') is None:
+            st['late'] = leftover()
+        if st['observed'] and all_fired():
+            break
         if loop.tick(T_END) is None:
             break
     harness_errors(world, tap)
@@ -435,24 +459,23 @@ def _connect(c, loop, g, wr, tap, mode, direct, indirect, addr, typ, decoy, canc
     csig = sig if st['cancelled_at'] is None else [mode, 'cancel'] + st['phase']
     c.reach('scenario_end')
     if not c.check(task.done(), 'request_terminates', sig=csig,
-                   info={'direct_phase_indirect_phase': phase(), 'waiters': waiters()}):
+                   info={'direct_phase_indirect_phase': phase(), 'waiters': waiters(), 't': loop.time()}):
         return
     returned = st['result'][0] if st['result'] else None
-    ok, inf = others_closed(returned if returned in net.peer_connections else None)
-    c.check(ok, 'late_arrival_leaves_nothing', sig=csig, info=inf)
-    c.check(waiters() == (0, 0) and not running(returned), 'late_arrival_leaves_nothing', sig=csig,
-            info={'waiters': waiters(), 'running': running(returned)})
+    if st.get('clean_at_return'):
+        # (when something was left behind at the return, what it turns into later is a consequence, not a new finding)
+        c.check(st.get('late') is None, 'late_arrival_leaves_nothing', sig=csig, info=st.get('late'))
     died = world.dead_tasks(ignore=(task, 'Network._make_direct_connection', 'Network._make_indirect_connection'))
     c.check(not died and not loop.errors and not tap.swallowed, 'no_task_died', sig=csig,
             info=repr((died[:2], loop.errors[:1], tap.swallowed[:1])))
 
     # ---- what went over the wire -----------------------------------------------------------------------------------
-    c.check(len(S['direct_attempts']) <= 1 and len(S['ctp']) <= 1, 'one_attempt_of_each_kind', sig=sig,
-            info={'direct': len(S['direct_attempts']), 'connect_to_peer': len(S['ctp'])})
-    for a in S['direct_attempts'][:1]:
+    c.check(len(wr.attempts) <= 2 and len(S['ctp']) <= 1, 'one_attempt_of_each_kind', sig=sig,
+            info={'direct': len(wr.attempts) - 1, 'connect_to_peer': len(S['ctp'])})
+    for a in wr.attempts[1:2]:
         c.reach('direct_attempted')
         host_ok = z_and(*[w_eq(x, y, 8) for x, y in zip(list(reversed(c11env.ip_terms(a.host))), target_ip)])
-        port_ok = w_eq(a.port, target_port32)
+        port_ok = w_eq(0 if a.port is None else a.port, target_port32)
         c.check(z_and(valid, host_ok, port_ok), 'direct_attempt_goes_to_selected_address', sig=sig + [addr])
         for data in (a.writer.written[:1] if a.writer is not None else []):
             c.reach('peer_init_sent')
@@ -506,10 +529,8 @@ def _connect_back(c, loop, g, wr, tap, outcome, shape):
     world = World(c, loop, wr, 'race', prefer)
     world.start()
     net = world.net
-    attempts = []
 
     def attempt_script(a):
-        attempts.append(a)
         return o_kind, o_delay
 
     def writer_setup(a, w):
@@ -522,11 +543,12 @@ def _connect_back(c, loop, g, wr, tap, outcome, shape):
         pass
     harness_errors(world, tap)
     c.reach('connect_back_end')
+    attempts = wr.attempts[1:]
     if not c.check(len(attempts) == 1, 'connect_back_attempted_once', sig=sig, info=len(attempts)):
         return
     a = attempts[0]
     host_ok = z_and(*[w_eq(x, y, 8) for x, y in zip(c11env.ip_terms(a.host), c11env.ip_terms(m['ip']))])
-    c.check(z_and(host_ok, w_eq(a.port, target_port32)), 'connect_back_goes_to_selected_address', sig=sig)
+    c.check(z_and(host_ok, w_eq(0 if a.port is None else a.port, target_port32)), 'connect_back_goes_to_selected_address', sig=sig)
     # exactly one of: pierce-firewall message to the peer / cannot-connect report to the server
     reports = [d for d in world.server_writer.written if frame_code(d) == 1001]
     others = [d for d in world.server_writer.written if frame_code(d) != 1001]
